@@ -1,6 +1,7 @@
 mod arith;
 mod instr;
 mod mapdrv;
+mod setdrv;
 
 use instr::*;
 
@@ -40,6 +41,8 @@ fn main() {
                 match kind.as_str() {
                     "map-drop" => mapdrv::run_map::<Kd, Vd>(&body, &mut out),
                     "map-plain" => mapdrv::run_map::<Kp, Vp>(&body, &mut out),
+                    "set-drop" => setdrv::run_set::<Kd>(&body, &mut out),
+                    "set-plain" => setdrv::run_set::<Kp>(&body, &mut out),
                     k => panic!("unknown kind {}", k),
                 }
             }
